@@ -28,7 +28,7 @@ BUF_SIZES = [1, 2, 3, 4, 5, 6, 7, 8, 9, 15, 16, 17, 63, 16384]
 
 
 def gen_scn(rng):
-    sc = scenario.gen_scenario(rng, forbid=('vtrail',))
+    sc = scenario.gen_scenario(rng, forbid=('vtrail',), want={'flavors': ['nr', 'nr', 'r', 'r', 'c99']})
     sc.buf_size = None
     return sc
 
